@@ -1,7 +1,8 @@
 #!/usr/bin/env python3
 """
 Differential self-test of the source translator (harness/translate.py) and its semantics prelude
-(lean/Acra/Py/IntOps.lean): every function of the SRC tables that is translated as a whole is evaluated
+(lean/Acra/Py/IntOps.lean), and of the method translator (harness/translate_methods.py, tables METHODS: object state
+in -> object state out and result, see `method_cases`): every function of the SRC tables that is translated as a whole is evaluated
 
   * in CPython, by calling the real function of $ACRA_REPO (default /repo), and
   * in Lean, by `#eval` of the regenerated definition `Acra.Gen.Src.<Module>.<name>`,
@@ -22,6 +23,7 @@ sys.path.insert(0, os.path.join(VERIF, "harness"))
 import warnings
 warnings.simplefilter("ignore")
 import translate            # noqa: E402
+import translate_methods    # noqa: E402
 REPO = translate.REPO
 sys.path.insert(0, REPO)
 
@@ -78,8 +80,107 @@ def hexd (n : Nat) : Char := "0123456789abcdef".toList.getD n '?'
 instance : Show Bytes := ⟨fun b => "x" ++ String.mk (b.flatMap fun x => [hexd (x.toNat / 16), hexd (x.toNat % 16)])⟩
 instance : Show (List Int) := ⟨fun l => "[" ++ ",".intercalate (l.map toString) ++ "]"⟩
 instance : Show (Int × Int) := ⟨fun p => s!"({p.1}, {p.2})"⟩
+instance : Show Unit := ⟨fun _ => "()"⟩
 instance [Show α] : Show (R α) := ⟨fun r => match r with | .ok v => Show.sh v | .error e => "err:" ++ showE e⟩
 '''
+
+# ------------------------------------------------------------------------------------------------ whole methods
+def method_cases(rng, n, lean, expect):
+    """the METHODS tables (harness/translate_methods.py): every translated method is run in CPython on a real object whose
+    carried attributes were set to seeded values, and in Lean on the same `Obj`; compared: the object afterwards (every
+    carried attribute) and the result / exception kind.  -> error text | None"""
+    errors, changed, report = translate_methods.generate()
+    if errors:
+        return "method translation errors: %r" % (errors,)
+    def canon_res(v):
+        return "()" if v is None else canon(v)
+    for spec in translate_methods.METHODS:
+        text, results, cls = translate_methods.translate_class(spec)
+        ns = "Acra.Gen.Src.Cls.%s" % spec["lean"]
+        lean.insert(0, "import " + ns)
+        fields = cls.fields
+        show = "def showObj_%s (o : %s.Obj) : String := \"{\" ++ %s ++ \"}\"" % (
+            spec["lean"], ns, ' ++ "," ++ '.join('"%s=" ++ Show.sh o.%s' % (f, translate.lname(f)) for f, _ in fields))
+        lean.append(show)
+        modname = spec["file"][:-3].replace("/", ".")
+        if modname.endswith(".__init__"):
+            modname = modname[:-9]
+        pycls = getattr(importlib.import_module(modname), spec["cls"])
+        def rand_state(valid):
+            st = {}
+            for f, t in fields:
+                if t == translate.INT:
+                    st[f] = rng.choice([0, 1, 0xFFFF, 0xFFFFFFFF, rng.getrandbits(16), rng.getrandbits(32)]) if valid else rand_int(rng)
+                elif t == translate.BOOL:
+                    st[f] = rng.random() < 0.5
+                else:
+                    st[f] = rand_bytes(rng)
+            return st
+        def mk(st):
+            o = pycls()
+            for f, v in st.items():
+                setattr(o, f, v)
+            return o
+        def lean_obj(st):
+            parts = []
+            for f, t in fields:
+                v = st[f]
+                parts.append("%s := %s" % (translate.lname(f), lean_int(v) if t == translate.INT else
+                                           ("true" if v else "false") if t == translate.BOOL else lean_bytes(v)))
+            return "({ %s } : %s.Obj)" % (", ".join(parts), ns)
+        def obs(o):
+            return "{" + ",".join("%s=%s" % (f, canon(getattr(o, f))) for f, _ in fields) + "}"
+        for m, good, name in results:
+            node = cls.methods[m["func"]]
+            params = [x.arg for x in node.args.args[1:]]
+            ptypes = dict(m.get("params", {}))
+            for x in node.args.args[1:]:
+                if x.arg not in ptypes and getattr(x.annotation, "id", None) in translate_methods.TYPES:
+                    ptypes[x.arg] = x.annotation.id
+            for i in range(n):
+                st = rand_state(valid=rng.random() < 0.7)
+                pyargs, leanargs, shown = [], [], []
+                for p in params:
+                    t = ptypes[p]
+                    if t == "self":
+                        st2 = dict(st)
+                        if rng.random() < 0.7:       # differ in exactly one attribute (sometimes none)
+                            f, ft = rng.choice(fields)
+                            st2[f] = rand_state(True)[f]
+                        pyargs.append(mk(st2)); leanargs.append(lean_obj(st2)); shown.append(obs(pyargs[-1]))
+                    elif t == "int":
+                        v = rand_int(rng)
+                        pyargs.append(v); leanargs.append(lean_int(v)); shown.append(canon(v))
+                    elif t == "bool":
+                        v = rng.random() < 0.5
+                        pyargs.append(v); leanargs.append("true" if v else "false"); shown.append(canon(v))
+                    else:
+                        # a buffer: random, or what a well-formed object packs to (then sometimes cut / extended / one byte changed)
+                        v = rand_bytes(rng)
+                        if "pack" in cls.methods and rng.random() < 0.7:
+                            try:
+                                v = bytes(mk(rand_state(True)).pack())
+                                r = rng.random()
+                                if r < 0.15 and v:
+                                    v = v[:-1]
+                                elif r < 0.3:
+                                    v = v + b"\x00"
+                                elif r < 0.45 and v:
+                                    k = rng.randrange(len(v))
+                                    v = v[:k] + bytes([v[k] ^ (1 << rng.randrange(8))]) + v[k + 1:]
+                            except Exception:
+                                pass
+                        pyargs.append(v); leanargs.append(lean_bytes(v)); shown.append(canon(v))
+                o = mk(st)
+                before = obs(o)
+                try:
+                    r = canon_res(getattr(o, m["func"])(*pyargs))
+                except Exception as e:
+                    r = "err:" + err_kind(e)
+                expect.append(("%s.%s" % (spec["cls"], m["func"]), [before] + shown, obs(o) + "|" + r))
+                lean.append('#eval IO.println ("R " ++ (let r := %s.%s %s %s; showObj_%s r.1 ++ "|" ++ Show.sh r.2))' % (
+                    ns, translate.lname(name), lean_obj(st), " ".join(leanargs), spec["lean"]))
+    return None
 
 def main():
     ap = argparse.ArgumentParser()
@@ -194,6 +295,10 @@ def main():
                 r = "err:" + err_kind(e)
             expect.append((spec["func"], [canon(x) if not hasattr(x, "SyndromeTable") else "<Golay>" for x in pyargs], r))
             lean.append('#eval IO.println ("R " ++ Show.sh (%s %s))' % (lname, " ".join(leanargs + proofs)))
+    bad_m = method_cases(rng, a.n, lean, expect)
+    if bad_m:
+        print(bad_m)
+        return 2
     path = os.path.join(VERIF, "lean", ".lake", "srctie_selftest_%d.lean" % os.getpid())
     with open(path, "w") as f:
         f.write("\n".join(lean) + "\n")
